@@ -23,12 +23,23 @@ static char verif_getdata(void *srpc, TsrpcReceivedData *rd, unsigned _supla_int
 
 /* ------------------------------------------------------------ uptime control (C05) */
 extern struct { uint32 cycles; uint32 last_system_time; ETSTimer timer; } usermain_uptime;
-static void set_uptime_sec(unsigned long long sec) {
-  unsigned long long usec = sec * 1000000ull + 123;
+static void set_uptime_usec(unsigned long long usec);
+static void set_uptime_sec(unsigned long long sec) { set_uptime_usec(sec * 1000000ull + 123); }
+static void set_uptime_usec(unsigned long long usec) {
   usermain_uptime.cycles = (uint32)(usec / 0xffffffffull);
   uint32 time = (uint32)(usec % 0xffffffffull);
   usermain_uptime.last_system_time = time;
   sdk_boot_cnt = time - (uint32)sdk_now_us;
+}
+
+/* ------------------------------------------------------------ countdown probes (C07) */
+typedef struct { _supla_int_t sender_id; unsigned _supla_int64_t last_time; unsigned int time_left_ms;
+  uint8 gpio_id; uint8 channel_number; char target_value[SUPLA_CHANNELVALUE_SIZE]; } verif_cd_item;
+typedef struct { unsigned int delay_ms; ETSTimer timer; verif_cd_item items[RELAY_MAX_COUNT];
+  void *finish_cb; void *on_disarm_cb; } verif_cd_vars;
+extern verif_cd_vars countdown_timer_vars;
+static void cd_finish_probe(uint8 gpio_id, uint8 channel_number, char target_value[SUPLA_CHANNELVALUE_SIZE]) {
+  sdk_out("FINISH %u", channel_number);
 }
 
 /* ------------------------------------------------------------ ping bookkeeping (C05 scenarios) */
@@ -215,6 +226,7 @@ int main(void) {
     if (sdk_dead) { ops_done(); continue; }
     if (setjmp(sdk_restart_jmp) == 0) {
       const char *op = ops_tok[0];
+      if (inited && (!strcmp(op, "msg") || !strcmp(op, "input"))) sdk_out("NOW %llu", (unsigned long long)sdk_now_us);
       if (!strcmp(op, "boot") && ops_ntok == 2) {
         sdk_boot_cnt = (uint32_t)strtoul(ops_tok[1], 0, 10);
       } else if (!strcmp(op, "board") && ops_ntok >= 2) {
@@ -322,6 +334,24 @@ int main(void) {
           sdk_out("PINGREPLY");
           supla_esp_devconn_recv_cb(NULL, (char *)f, (unsigned short)k);
         }
+      } else if (!strcmp(op, "cdset") && ops_ntok == 5) { /* idx channel left last_ms */
+        int i = atoi(ops_tok[1]);
+        if (i >= 0 && i < RELAY_MAX_COUNT) {
+          countdown_timer_vars.items[i].channel_number = atoi(ops_tok[2]);
+          countdown_timer_vars.items[i].time_left_ms = (unsigned)strtoull(ops_tok[3], 0, 10);
+          countdown_timer_vars.items[i].last_time = strtoull(ops_tok[4], 0, 10);
+          countdown_timer_vars.items[i].gpio_id = 200;
+        }
+      } else if (!strcmp(op, "cdcb") && ops_ntok == 2) { /* callback at uptime ms */
+        void *saved = countdown_timer_vars.finish_cb;
+        supla_esp_countdown_set_finish_cb(cd_finish_probe);
+        set_uptime_usec(strtoull(ops_tok[1], 0, 10) * 1000ull + 7);
+        supla_esp_countdown_timer_cb(NULL);
+        countdown_timer_vars.finish_cb = saved;
+        for (int i = 0; i < RELAY_MAX_COUNT; i++)
+          if (countdown_timer_vars.items[i].channel_number != 255)
+            sdk_out("ITEM %d %u %u", i, countdown_timer_vars.items[i].channel_number, countdown_timer_vars.items[i].time_left_ms);
+        sdk_out("DELAY %u", countdown_timer_vars.delay_ms);
       } else if (!strcmp(op, "rslog") && ops_ntok == 2) {
         fw_hook_rs_log = atoi(ops_tok[1]);
         for (int i = 0; i < RS_MAX_COUNT; i++)
